@@ -213,6 +213,22 @@ class RatFun:
         return NotImplemented
 
 
+def _ratfun_fraction(self, interp, node):
+    """Fraction(x) of a rational function of exact symbols is that function."""
+    return self
+
+
+def _ratfun_method(self, interp, name, args, kwargs, node):
+    if name == "limit_denominator":
+        # the symbols stand for note values and lengths, whose denominators are small
+        return self
+    return NotImplemented
+
+
+RatFun.a_fraction = _ratfun_fraction
+RatFun.a_method = _ratfun_method
+
+
 def _ratfun_compare(self, interp, op, other, reflected, node):
     o = RatFun.of(other)
     if o is None:
